@@ -219,6 +219,13 @@ const char* Profile() noexcept;
 // true while the tree is simulated under the race variant (plain accesses traced)
 bool RaceBuild() noexcept;
 
+// For harnesses that drive the fiber layer themselves (C17): mix a value into the run's trace hash (compared between
+// processes by the determinism checks), report how many fibers / context switches the case had (for the non-trivial
+// rule), and end the process from a state that cannot be unwound.
+void Digest(std::uint64_t v) noexcept;
+void OverrideStats(std::uint32_t fibers, std::uint64_t switches, std::uint64_t steps) noexcept;
+[[noreturn]] void Die(const char* cls, const char* msg);
+
 int CounterId(const char* name);  // registers a named counter (probe_* / fault_* / stat_*), returns its index
 void CounterAdd(int id, std::uint64_t n = 1) noexcept;
 void CountDyn(const char* name);  // counter whose name is computed at run time (cell coverage)
@@ -352,6 +359,10 @@ inline long long TrackedLive() noexcept {
 // ---------------------------------------------------------------- allocation ledger (DESIGN §2.7.3)
 // Number of heap blocks allocated during the current run and still live.
 long long LedgerLive() noexcept;
+// While on, freed heap blocks are parked instead of being returned to malloc, so that no address is handed out twice:
+// pointer-comparing lock-free code (CAS on list heads) then cannot see an ABA that depends on the allocator's history.
+// Turning it off releases everything parked.
+void QuarantineFrees(bool on) noexcept;
 // RAII: allocations made while one of these is alive are not attributed to the run (simulator bookkeeping).
 struct Untracked {
   Untracked() noexcept;
